@@ -65,8 +65,18 @@ def check_calls(case, obs):
 
 WHY = {1: "vertex set / joint-degree annotations changed", 2: "self-loop, end point out of range or duplicate edge",
        3: "edge count changed", 4: "a per-vertex per-topology degree changed",
-       5: "a motif id no longer carries a motif of the original shape on distinct vertices",
+       7: "a label class (motif id) changed its number of edges of some topology",
        6: "the input network object was modified"}
+KNOWN_PREFIX = "KNOWN:C11-crossed-ids"
+SHAPE_TEXT = "edges sharing a motif id no longer form a motif of the original shape on distinct vertices"
+
+
+def _shape(obs, where):
+    """the shape clause failed: an open known finding exactly when the implementation crosses the ids at
+    swap_condition -> append_proposal_edges (variant 0); a violation for any other behaviour"""
+    if mc.obs_variant(obs) == 0:
+        return f"{KNOWN_PREFIX} {where}: {SHAPE_TEXT} (new corner edges carry the id of the motif they left)"
+    return f"{where}: {SHAPE_TEXT}"
 
 
 def check_verdict(case, obs, raws):
@@ -79,15 +89,21 @@ def check_verdict(case, obs, raws):
             return f"rewire() raised {obs['status'][1]} on a clean network with a full-support target"
         if not raws:
             return "checker did not run"
-        i, why = raws[0]
+        i, why, j = raws[0]
         if i != -1:
             return f"graph after change {i}: {WHY.get(why, why)}"
+        if j != -1:
+            return _shape(obs, f"graph after change {j}")
         return None
+    shape = None
     for (q, it), r in zip(mc.accepted_items(case, obs), raws):
+        tag = f"accepted swap u0={q[0]} e0={q[1]} v0={q[2]} e1={q[3]} proposals {it['props']}"
         if r[0] != 1:
             w = WHY.get(r[1], f"apply step failed ({mc.EXC_CODES.get(r[1] - 10, r[1])})")
-            return f"accepted swap u0={q[0]} e0={q[1]} v0={q[2]} e1={q[3]} proposals {it['props']}: {w}"
-    return None
+            return f"{tag}: {w}"
+        if r[2] != 1 and shape is None:
+            shape = _shape(obs, tag)
+    return shape
 
 
 def search(rng, tier, seeds):
